@@ -48,6 +48,7 @@ type Cell struct {
 	Tag   string     // debug / model tags (opaque handles etc.)
 	Ext   interface{} // payload for modelled library objects
 	Frozen bool       // shared across paths (package-init state): writes are refused
+	Shared bool       // race analysis: location shared between goroutines
 }
 
 type StructVal struct {
@@ -73,6 +74,7 @@ type mapEntry struct {
 }
 
 type MapVal struct {
+	Shared bool
 	Frozen bool
 	E  []mapEntry
 	KT types.Type
@@ -262,6 +264,15 @@ func isAggType(t types.Type) bool {
 // *StructVal / *ArrayVal, nil = zero value) or EXPANDED (one sub-cell per
 // field/element, created when somebody takes an element address).
 func (in *Interp) storeInto(c *Cell, t types.Type, v Value) {
+	if c.Shared {
+		in.recordAccess(c, true)
+		if m, ok := v.(*MapVal); ok && m != nil && !m.Shared {
+			m.Shared = true // published
+			if in.rs != nil {
+				in.rs.names[m] = in.rs.names[c] + "(map)"
+			}
+		}
+	}
 	if c.Frozen {
 		in.fail("unsupported", "write to package-init state shared across paths (run with nocache)")
 	}
@@ -370,6 +381,15 @@ func (in *Interp) ensureAgg(c *Cell) {
 func (in *Interp) load(c *Cell) Value {
 	if c == nil {
 		panic(goPanic{msg: "runtime error: invalid memory address or nil pointer dereference"})
+	}
+	if c.Shared {
+		in.recordAccess(c, false)
+		if m, ok := c.V.(*MapVal); ok && m != nil && !m.Shared {
+			m.Shared = true
+			if in.rs != nil {
+				in.rs.names[m] = in.rs.names[c] + "(map)"
+			}
+		}
 	}
 	if c.Agg || (c.V == nil && c.T != nil && isAggType(c.T)) {
 		if c.Elems == nil {
